@@ -2,7 +2,9 @@
 
 Nodes are presentations of ONE data set; edges change one coordinate of the presentation (dimension order, feature
 permutation along lat / lon, sample permutation, split of the features into Dataset variables or list items, internal
-sample/feature names).  BFS over compositions to the tier's depth.  At every node every model class is fitted and its
+sample/feature names, samples carried by one dimension / by two dimensions named in either order / by one user-stacked
+MultiIndex dimension).  Three base configurations: plain, labelled user weights, ragged sample grid (fully missing samples
+spread unevenly over the two sample dimensions).  BFS over compositions to the tier's depth.  At every node every model class is fitted and its
 canonical form (spectrum; components keyed by base cell; scores keyed by sample label) must fall into the base node's class.
 """
 
@@ -25,15 +27,17 @@ LEVEL = "model_checking"
 TECHNIQUE = "BFS over the graph of meaning-preserving re-presentations of one data set; every node fitted with every model class on the real code and compared (label-keyed) with the base node"
 RULE = (
     "states = (presentation node, model class) pairs fitted; a node is a tuple (dim order, lat permutation, lon permutation, "
-    "sample permutation, feature split into Dataset/list, internal names, samples as one or two dimensions) with at most `depth` non-default coordinates; "
+    "sample permutation, feature split into Dataset/list, internal names, samples as one dimension | two dimensions dim=(t, r) | dim=(r, t) | "
+    "one user-stacked MultiIndex dimension) with at most `depth` non-default coordinates; "
     "transitions = lattice edges between visited nodes (one coordinate changed) times model classes; every fitted node is "
     "validated against the base node's canonical form"
 )
-LEVEL_TEXT = "all compositions of up to 2 (quick) / 3 (thorough) presentation edges over the full edge alphabet, for 13 model classes"
+LEVEL_TEXT = "all compositions of up to 2 (quick) / 3 (thorough) presentation edges over the full edge alphabet, for 17 model configurations (15 classes; cross-set classes also with an exactly solved PCA pre-reduction); the weighted, ragged and degenerate base configurations one level less deep"
 ASSUMPTIONS = [
     "one 9x(3x2) base data set per spectrum (geometric; flat_pair compared through projectors) stands for 'all inputs'",
     "PYTHONHASHSEED is fixed to 0 by ./check; the thorough tier re-explores the quick graph in fresh interpreters with PYTHONHASHSEED = 1 and 2 (environment edge)",
-    "order-dependent methods (ExtendedEOF, OPA, POP, HilbertEOF, EOFBootstrapper) are not given sample permutations",
+    "order-dependent methods (ExtendedEOF, OPA, POP, HilbertEOF, EOFBootstrapper) are not given sample permutations, nor the two sample dimensions named in the other order (a sample permutation)",
+    "ragged base: one pattern of fully missing samples (3 of 12 slots, members with 4 / 3 / 2 samples), missing in every field alike; CPCCARotator on the exact-PCA configuration is explored one level less deep",
 ]
 TALLY_KEYS = ("model",)
 TRUSTED = ["statsmodels import shim (cross-set constructors)"]
@@ -44,16 +48,29 @@ PLON = [(0, 1), (1, 0)]
 PSAM = [None, "reverse", "shuffle"]
 SPLITS = [None] + [[k, i] for k in ("ds", "list") for i in range(3)]  # lat i alone vs the two others
 NAMES = [("sample", "feature"), ("s", "f"), ("obs", "cell")]
+# samples presented as: one dimension 'time' | two dimensions named dim=("t", "r") | the same two named dim=("r", "t")
+# (the order of the names in `dim` is only a sample permutation) | stacked by the user into one MultiIndex dimension 'run'
+SDIMS = ["time", ("t", "r"), ("r", "t"), "run"]
 DEFAULT = dict(order=0, plat=0, plon=0, psam=0, split=0, names=0, sdims=0)
-DOMAIN = dict(order=len(ORDERS), plat=len(PLAT), plon=len(PLON), psam=len(PSAM), split=len(SPLITS), names=len(NAMES), sdims=2)
+DOMAIN = dict(order=len(ORDERS), plat=len(PLAT), plon=len(PLON), psam=len(PSAM), split=len(SPLITS), names=len(NAMES), sdims=len(SDIMS))
 # `weights` is not a presentation coordinate but a second base configuration: user weights given as a labelled field
 # in the BASE order, whatever the order in which the data stores its coordinates (the product is label-aligned)
+# `ragged` is a third base configuration: 12 sample slots (t = 0..3, r = 0..2) of which (t, r) = (0, 1), (0, 2), (1, 2) are
+# fully missing in every field (ensemble members that start later: r = 0, 1, 2 have 4, 3, 2 samples). The 9 remaining
+# samples are the samples of every presentation, whatever the number / order of the sample dimensions that carry them.
 
 MODELS = ["EOF", "ComplexEOF", "HilbertEOF", "ExtendedEOF", "SparsePCA", "POP", "OPA", "EOFRotator", "CPCCA", "MCA", "MCARotator", "multiCCA", "EOFBootstrapper"]
+# cross-set configurations whose PCA pre-reduction keeps all ("all") or nearly all (large integer) PCs: the PCA step is then
+# solved by the exact solver (n_modes > 80 % of the rank on small data), not by the randomized one of the default setting
+MODELS += ["MCA_allpc", "CPCCA_allpc", "RDA_intpc", "CPCCARotator_allpc"]
 NO_SAMPLE_PERM = {"HilbertEOF", "ExtendedEOF", "POP", "OPA", "EOFBootstrapper"}
-CROSS = {"CPCCA", "MCA", "MCARotator"}
-ITERATIVE = {"SparsePCA", "EOFRotator", "MCARotator"}
+CROSS = {"CPCCA", "MCA", "MCARotator", "MCA_allpc", "CPCCA_allpc", "RDA_intpc", "CPCCARotator_allpc"}
+ITERATIVE = {"SparsePCA", "EOFRotator", "MCARotator", "CPCCARotator_allpc"}
+RAGGED_EXTRA = ["EOF_std"]  # on the ragged base the scale is an average over the sample dimensions too: EOF(standardize=True)
+SHALLOW = {"CPCCARotator_allpc"}  # explored one level less deep than the others (0.7 s per fit)
 N = 9
+N_RAGGED = 12
+MISSING = (1, 2, 5)  # time labels 3 t + r of the fully missing samples of the ragged base
 
 
 def nodes(depth):
@@ -72,20 +89,25 @@ def ndepth(n):
     return sum(1 for k in DEFAULT if n.get(k, 0) != 0)
 
 
-def base_data(seed, spec, cplx):
+def base_data(seed, spec, cplx, ragged=False):
     X = D.make_matrix(N, 6, spec, 1.0, cplx, seed, salt=1)
-    x = D.da_grid(X, 3, 2, lats=[-50.0, 10.0, 65.0], name="field")
     Y = D.make_matrix(N, 4, "geometric", 1.0, False, seed, salt=2)
+    if ragged:  # the same 9 samples scattered over 12 slots; the other 3 slots are fully missing in both fields
+        keep = [i for i in range(N_RAGGED) if i not in MISSING]
+        Xr, Yr = np.full((N_RAGGED, 6), np.nan, dtype=X.dtype), np.full((N_RAGGED, 4), np.nan)
+        Xr[keep], Yr[keep] = X, Y
+        X, Y = Xr, Yr
+    x = D.da_grid(X, 3, 2, lats=[-50.0, 10.0, 65.0], name="field")
     y = D.da_2d(Y, "time", "station", fcoord=["a", "b", "c", "d"], name="yfield")
     return x, y
 
 
-def sample_perm(kind, seed):
+def sample_perm(kind, seed, n=N):
     if kind is None:
-        return np.arange(N)
+        return np.arange(n)
     if kind == "reverse":
-        return np.arange(N)[::-1]
-    return np.random.default_rng([seed, 99]).permutation(N)
+        return np.arange(n)[::-1]
+    return np.random.default_rng([seed, 99]).permutation(n)
 
 
 def _two_sample_dims(o, order, flip):
@@ -101,17 +123,34 @@ def _two_sample_dims(o, order, flip):
     return o.transpose(*[d for d in dims if d in o.dims])
 
 
+def _user_stacked(o, order):
+    """Present the samples as ONE dimension 'run' carrying the MultiIndex (t, r) of time label i = 3 t + r, in whatever
+    order the samples are stored (what X.stack(run=("t", "r")) gives the user, up to the order of the elements)."""
+    tl = o.time.values
+    idx = pd.MultiIndex.from_arrays([tl // 3, tl % 3], names=("t", "r"))
+    o = o.drop_vars("time").rename(time="run").assign_coords(xr.Coordinates.from_pandas_multiindex(idx, "run"))
+    return o.transpose(*["run" if d == "time" else d for d in order if d == "time" or d in o.dims])
+
+
+def _samples(o, order, sd, flip=False):
+    """Container `o` over (time, ...) in the presentation `sd` of the samples and dimension order `order`."""
+    if sd == 0:
+        return o.transpose(*order)
+    if sd == 3:
+        return _user_stacked(o, order)
+    return _two_sample_dims(o, order, flip != (sd == 2))  # sd == 2 also stores the pair the other way round
+
+
 def present(x, y, node, seed):
-    ps = sample_perm(PSAM[node["psam"]], seed)
+    ps = sample_perm(PSAM[node["psam"]], seed, x.sizes["time"])
     x = x.isel(time=ps, lat=list(PLAT[node["plat"]]), lon=list(PLON[node["plon"]]))
     y = y.isel(time=ps)
     order = ORDERS[node["order"]]
     sp = SPLITS[node["split"]]
-    two = node.get("sdims", 0) == 1
-    if two:
-        y = _two_sample_dims(y, ("time", "station"), False)
+    sd = node.get("sdims", 0)
+    y = _samples(y, ("time", "station"), sd)
     if sp is None:
-        return (_two_sample_dims(x, order, False) if two else x.transpose(*order)), y
+        return _samples(x, order, sd), y
     kind, i = sp
     lat_i = float(np.sort(x.lat.values)[i])
     a = x.sel(lat=[lat_i])
@@ -119,14 +158,16 @@ def present(x, y, node, seed):
     if kind == "ds":
         # two variables on the shared (time, lat, lon) grid: each is NaN (i.e. fully missing) outside its own latitudes
         ds = xr.Dataset({"v0": a.rename("v0"), "v1": b.rename("v1")})
-        return (_two_sample_dims(ds, order, False) if two else ds.transpose(*order)), y
-    if two:  # the two list items store the shared sample dimensions in different orders
-        return [_two_sample_dims(a, order, False), _two_sample_dims(b.rename("field_b"), order, True)], y
-    return [a.transpose(*order), b.rename("field_b").transpose(*order)], y
+        return _samples(ds, order, sd), y
+    # with two sample dimensions the two list items store them in different orders
+    return [_samples(a, order, sd, False), _samples(b.rename("field_b"), order, sd, True)], y
 
 
 def _samples_back(sc):
-    """Scores over (t, r) -> scores over the base 'time' label 3 t + r."""
+    """Scores over (t, r), or over the user's MultiIndex dimension 'run' -> scores over the base 'time' label 3 t + r."""
+    if "run" in sc.dims:
+        lab = np.asarray(sc["t"].values) * 3 + np.asarray(sc["r"].values)
+        return sc.drop_vars(["run", "t", "r"]).rename(run="time").assign_coords(time=lab)
     if "t" not in sc.dims:
         return sc
     st = sc.stack(time=("t", "r"))
@@ -154,6 +195,8 @@ def build(model, names):
     aux = None
     if model == "EOF" or model == "EOFRotator" or model == "EOFBootstrapper":
         m = xe.single.EOF(n_modes=3, solver="full", **kw)
+    elif model == "EOF_std":
+        m = xe.single.EOF(n_modes=3, standardize=True, solver="full", **kw)
     elif model == "ComplexEOF":
         m = xe.single.ComplexEOF(n_modes=3, solver="full", **kw)
     elif model == "HilbertEOF":
@@ -170,12 +213,20 @@ def build(model, names):
         m = xe.cross.CPCCA(n_modes=2, alpha=0.5, use_pca=False, solver="full", **kw)
     elif model in ("MCA", "MCARotator"):
         m = xe.cross.MCA(n_modes=2, use_pca=True, n_pca_modes=3, solver="full", **kw)
+    elif model == "MCA_allpc":
+        m = xe.cross.MCA(n_modes=2, use_pca=True, n_pca_modes="all", solver="full", **kw)
+    elif model in ("CPCCA_allpc", "CPCCARotator_allpc"):
+        m = xe.cross.CPCCA(n_modes=2, alpha=0.5, use_pca=True, n_pca_modes="all", solver="full", **kw)
+    elif model == "RDA_intpc":  # 5 of 6 and 4 of 4 PCs: more than 80 % of the rank
+        m = xe.cross.RDA(n_modes=2, use_pca=True, n_pca_modes=(5, 4), solver="full", **kw)
     elif model == "multiCCA":
         m = xe.multi.CCA(n_modes=2, pca=False)
     if model == "EOFRotator":
         aux = xe.single.EOFRotator(n_modes=3, power=1)
     if model == "MCARotator":
         aux = xe.cross.MCARotator(n_modes=2, power=1)
+    if model == "CPCCARotator_allpc":
+        aux = xe.cross.CPCCARotator(n_modes=2, power=1)
     if model == "EOFBootstrapper":
         aux = xe.validation.EOFBootstrapper(n_bootstraps=2, seed=11)
     return m, aux
@@ -192,12 +243,12 @@ def _weights_for(px, x, seed):
     return W
 
 
-def fit_and_canon(model, node, seed, spec, weights=False):
+def fit_and_canon(model, node, seed, spec, weights=False, ragged=False):
     cplx = model == "ComplexEOF"
-    x, y = base_data(seed, spec, cplx)
+    x, y = base_data(seed, spec, cplx, ragged)
     px, py = present(x, y, node, seed)
     m, aux = build(model, node["names"])
-    dim = ("t", "r") if node.get("sdims", 0) == 1 else "time"
+    dim = SDIMS[node.get("sdims", 0)]
     W = _weights_for(px, x, seed) if weights else None
     if model in CROSS:
         m.fit(px, py, dim=dim, weights_X=W)
@@ -235,15 +286,15 @@ def fit_and_canon(model, node, seed, spec, weights=False):
 
 
 @functools.lru_cache(maxsize=None)
-def base_canon(model, seed, spec, weights=False):
+def base_canon(model, seed, spec, weights=False, ragged=False):
     with warnings.catch_warnings():
         warnings.simplefilter("ignore")
-        return fit_and_canon(model, dict(DEFAULT), seed, spec, weights)
+        return fit_and_canon(model, dict(DEFAULT), seed, spec, weights, ragged)
 
 
 def applicable(model, node):
-    if model in NO_SAMPLE_PERM and node["psam"] != 0:
-        return False
+    if model in NO_SAMPLE_PERM and (node["psam"] != 0 or node["sdims"] == 2):
+        return False  # naming the sample dimensions in the other order stacks the samples in another order
     if model == "multiCCA" and (node["split"] != 0 or node["names"] != 0):
         return False  # multi.CCA takes one DataArray per view and exposes no internal names
     return True
@@ -254,13 +305,21 @@ def cases(tier, seed):
     out = []
     for n in nodes(depth):
         for m in MODELS:
-            if applicable(m, n):
+            if applicable(m, n) and (m not in SHALLOW or ndepth(n) < depth):
                 out.append(dict(node=n, model=m, spec="geometric"))
     # the same graph (depth 1 quick / 2 thorough) with labelled user weights in the base order
     for n in nodes(1 if tier == "quick" else 2):
         for m in ("EOF", "SparsePCA", "MCA", "EOFRotator"):
             if applicable(m, n):
                 out.append(dict(node=n, model=m, spec="geometric", weights=True))
+    # the same graph on the ragged base (fully missing samples spread unevenly over the two sample dimensions): every model
+    # class at depth 1 (quick) / 2; one single-set and one cross-set class one level deeper along the edges that change
+    # the presentation of the samples
+    d = 1 if tier == "quick" else 2
+    for n in nodes(d + 1):
+        for m in MODELS + RAGGED_EXTRA:
+            if applicable(m, n) and (ndepth(n) <= d or (m in ("EOF", "MCA_allpc") and n["sdims"] != 0)):
+                out.append(dict(node=n, model=m, spec="geometric", ragged=True))
     # degenerate spectrum: projector comparison, EOF only, depth 1 (quick) / 2
     for n in nodes(1 if tier == "quick" else 2):
         out.append(dict(node=n, model="EOF", spec="flat_pair"))
@@ -278,8 +337,8 @@ def run_case(case, seed):
     tol = 1e-7 if model in ITERATIVE else 1e-9
     with warnings.catch_warnings():
         warnings.simplefilter("ignore")
-        ref = base_canon(model, seed, spec, bool(case.get("weights")))
-        got = fit_and_canon(model, node, seed, spec, bool(case.get("weights")))
+        ref = base_canon(model, seed, spec, bool(case.get("weights")), bool(case.get("ragged")))
+        got = fit_and_canon(model, node, seed, spec, bool(case.get("weights")), bool(case.get("ragged")))
     for k in ref:
         a, b = ref[k], got[k]
         if spec == "flat_pair" and k in ("components", "scores"):
@@ -294,8 +353,8 @@ def run_case(case, seed):
                 ds = []
         if ds:
             so = bool("mode" in a.dims and not O.compare_da(abs(a), abs(b), tol, k, attrs=False, name=False))
-            V.append(viol("presentation_dependent", model, "node %s%s: %s" % (node, " with weights" if case.get("weights") else "", "; ".join(ds[:2])), answer=k.split("_")[0], magnitudes_equal=so, weights=bool(case.get("weights")), **feats))
-    return dict(violations=V, outcome="violation" if V else "ok", nontrivial=not V, states=1, transitions=ndepth(node), traces=1, info=dict(depth=ndepth(node)))
+            V.append(viol("presentation_dependent", model, "node %s%s%s: %s" % (node, " with weights" if case.get("weights") else "", " on the ragged base" if case.get("ragged") else "", "; ".join(ds[:2])), answer=k.split("_")[0], magnitudes_equal=so, weights=bool(case.get("weights")), ragged=bool(case.get("ragged")), **feats))
+    return dict(violations=V, outcome="violation" if V else "ok", nontrivial=not V, states=1, transitions=ndepth(node), traces=1, info=dict(depth=ndepth(node), sdims=node["sdims"], ragged=bool(case.get("ragged")), model=model))
 
 
 PHASE_FREE = {"ComplexEOF", "HilbertEOF"}
@@ -415,4 +474,11 @@ def finalize(cases, results, tier, seed):
 def vacuity(outcomes, results, tier):
     if len({r.get("info", {}).get("depth") for r in results}) < 2:
         return "presentation graph had one node"
+    for rg in (False, True):
+        seen = {r.get("info", {}).get("sdims") for r in results if r.get("info", {}).get("ragged") == rg}
+        if seen != set(range(len(SDIMS))):
+            return "%s base: sample presentations compared were %s, not all of %s" % ("ragged" if rg else "plain", sorted(seen, key=str), SDIMS)
+    exact = {r.get("info", {}).get("model") for r in results} & {"MCA_allpc", "CPCCA_allpc", "RDA_intpc", "CPCCARotator_allpc"}
+    if len(exact) < 4:
+        return "cross-set configurations with an exactly solved PCA pre-reduction compared: only %s" % sorted(exact)
     return None
